@@ -449,14 +449,17 @@ func funcName(pkg *types.Package, fn *ssa.Function, org bool) string {
 	}
 	// For wrappers, fall back to metadata available on fn itself.
 	name := fn.Name()
+	wrapper := false
 	if recv == nil && strings.HasSuffix(name, "$thunk") {
 		// For thunks, extract receiver from first parameter.
 		if params := fn.Signature.Params(); params.Len() > 0 {
 			recv = params.At(0)
+			wrapper = true
 		}
 	} else if recv == nil && strings.HasSuffix(name, "$bound") && len(fn.FreeVars) == 1 {
 		// For bound method wrappers, synthesize receiver var from free var type.
 		recv = types.NewVar(token.NoPos, nil, "", fn.FreeVars[0].Type())
+		wrapper = true
 	}
 	var fnName string
 	if org := fn.Origin(); org != nil {
@@ -466,6 +469,20 @@ func funcName(pkg *types.Package, fn *ssa.Function, org bool) string {
 		}
 	} else {
 		fnName = fn.Name()
+	}
+	if wrapper && recv != nil {
+		// A method-value or method-expression wrapper is emitted by the package that
+		// uses it, but its receiver type may belong to another package: qualify the
+		// type with its own package so that T.M and otherpkg.T.M get distinct names.
+		t := types.Unalias(recv.Type())
+		if pt, ok := t.(*types.Pointer); ok {
+			t = types.Unalias(pt.Elem())
+		}
+		if named, ok := t.(*types.Named); ok {
+			if tpkg := named.Obj().Pkg(); tpkg != nil && tpkg != pkg {
+				return llssa.PathOf(pkg) + "." + llssa.FuncName(tpkg, fnName, recv, org)
+			}
+		}
 	}
 	return llssa.FuncName(pkg, fnName, recv, org)
 }
